@@ -233,3 +233,12 @@ M("c12-vidx-first", "C12", "video_idx of the batch taken from the first frame", 
 M("c12-effscale-shared", "C12", "eff_scale of the batch replaced by its max", PD, "                eff_scales = torch.tensor(eff_scales, dtype=torch.float32)\n", "                eff_scales = torch.tensor([max(eff_scales)] * len(eff_scales), dtype=torch.float32)\n")
 M("c12-empty-not-skipped", "C12", "_generate_crops zips frames with peaks misaligned after an empty frame", TD, "                if torch.all(torch.isnan(centroid)):\n                    continue\n", "                if torch.all(torch.isnan(centroid)):\n                    break\n")
 M("c12-bu-split", "C12", "bottom-up peaks split by sample uses <= b", BU, "            cms_peaks.append(peaks[sample_inds == b])\n", "            cms_peaks.append(peaks[sample_inds <= b] if b == 1 else peaks[sample_inds == b])\n")
+
+GDC = "sleap_nn/data/get_data_chunks.py"
+SDS = "sleap_nn/data/streaming_datasets.py"
+M("c18-centroids-not-scaled", "C18", "centroid chunks: centroids not scaled", GDC, "    sample[\"image\"], sample[\"centroids\"] = apply_resizer(\n        sample[\"image\"], sample[\"centroids\"], scale=scale\n    )", "    sample[\"image\"], _ = apply_resizer(\n        sample[\"image\"], sample[\"centroids\"], scale=scale\n    )")
+M("c18-chunk-maxsize", "C18", "bottomup chunks ignore config max size", GDC, "    sample[\"image\"], eff_scale = apply_sizematcher(\n        sample[\"image\"],\n        max_height=max_height if max_height is not None else max_hw[0],\n        max_width=max_width if max_width is not None else max_hw[1],\n    )\n    sample[\"instances\"] = sample[\"instances\"] * eff_scale\n\n    # resize the image", "    sample[\"image\"], eff_scale = apply_sizematcher(\n        sample[\"image\"],\n        max_height=max_hw[0],\n        max_width=max_hw[1],\n    )\n    sample[\"instances\"] = sample[\"instances\"] * eff_scale\n\n    # resize the image")
+M("c18-stream-sigma", "C18", "bottomup streaming uses confmap sigma for pafs", SDS, "            sigma=self.pafs_head.sigma,\n", "            sigma=self.confmap_head.sigma,\n")
+M("c18-effscale-single", "C18", "single-instance chunks forget eff_scale on instances", GDC, "    sample[\"instances\"] = sample[\"instances\"] * eff_scale\n\n    # resize image\n    sample[\"image\"], sample[\"instances\"] = apply_resizer(\n        sample[\"image\"], sample[\"instances\"], scale=scale\n    )", "    sample[\"instances\"] = sample[\"instances\"] * 1.0\n\n    # resize image\n    sample[\"image\"], sample[\"instances\"] = apply_resizer(\n        sample[\"image\"], sample[\"instances\"], scale=scale\n    )")
+M("c18-stream-crop", "C18", "centered streaming re-crops with crop_hw swapped h/w and +1", SDS, "            make_centered_bboxes(ex[\"centroid\"][0], self.crop_hw[0], self.crop_hw[1]), 0\n", "            make_centered_bboxes(ex[\"centroid\"][0] + 1.0, self.crop_hw[0], self.crop_hw[1]), 0\n")
+M("c18-datapipe-resizer", "C18", "Resizer datapipe scales instances by scale**2", RS, "                ex[self.instances_key] = ex[self.instances_key] * self.scale\n", "                ex[self.instances_key] = ex[self.instances_key] * self.scale * self.scale\n")
